@@ -102,6 +102,19 @@ main :: () {
         r := if i == 0 { good } else { bad };
         v := #unwrap(r, str);
         core.println("unwrapped ", v);
+    } else if kind == 19 {
+        v := sl[2];
+        core.println("read ", v);
+    } else if kind == 20 {
+        v := sl[6];
+        core.println("read ", v);
+    } else if kind == 21 {
+        sl[6] = 99;
+        show(arr, before, after);
+    } else if kind == 22 {
+        ps := ^sl;
+        v := ps[4];
+        core.println("read ", v);
     } else if kind == 17 {
         zs : [3]Z;
         v := zs[idx_of(i)];
@@ -173,6 +186,11 @@ def runs():
         # elements without bytes: nothing is loaded, but the index is evaluated and checked all the same
         add(17, i, ok_lines(['index evaluated', 'read zero-sized']) if i < 3 else abort('index out of bounds'), 'array of zero-sized elements')
         add(18, i, ok_lines(['read zero-sized']) if i < 3 else abort('index out of bounds'), 'pointer to an array of zero-sized elements')
+    # literal indices into slices: nothing checks them at compile time, so the runtime check must
+    add(19, 0, ok_lines(['read %d' % ARR[2]]), 'slice read, literal index in range')
+    add(20, 0, abort('index out of bounds'), 'slice read, literal index out of range')
+    add(21, 0, abort('index out of bounds'), 'slice write, literal index out of range')
+    add(22, 0, abort('index out of bounds'), 'pointer-to-slice read, literal index out of range')
     for i in range(0, 3):
         add(10, i, ok_lines(['unwrapped 5']) if i == 0 else abort('#unwrap'), 'enum unwrap A')
         add(11, i, ok_lines(['unwrapped 6']) if i == 1 else abort('#unwrap'), 'enum unwrap B')
